@@ -211,7 +211,11 @@ func NewBlockFromBytes(serializedBlock []byte) (*Block, error) {
 	if err != nil {
 		return nil, err
 	}
-	b.serializedBlock = serializedBlock
+
+	// Only the bytes the block was decoded from are its serialization:
+	// anything that follows them in the caller's buffer is not part of the
+	// block and must not be returned by Bytes.
+	b.serializedBlock = serializedBlock[:len(serializedBlock)-br.Len()]
 	return b, nil
 }
 
